@@ -318,8 +318,9 @@ ben("b16_get_matrix_returns_copy", "C16,C11,C15", [
     (MAIN, "        if not self.border:\n            return self.modules\n", "        if not self.border:\n            return [list(row) for row in self.modules]\n")],
     "border 0 returns a copy instead of the symbol itself")
 ben("b15_one_write_per_line", "C15,C11", [
-    (MAIN, "        for r in range(-self.border, modcount + self.border, 2):\n            if tty:\n                if not invert or r < modcount + self.border - 1:\n                    out.write(\"\\x1b[48;5;232m\")  # Background black\n                out.write(\"\\x1b[38;5;255m\")  # Foreground white\n            for c in range(-self.border, modcount + self.border):\n                pos = get_module(r, c) + (get_module(r + 1, c) << 1)\n                out.write(codes[pos])\n            if tty:\n                out.write(\"\\x1b[0m\")\n            out.write(\"\\n\")\n",
-     "        for r in range(-self.border, modcount + self.border, 2):\n            line = []\n            if tty:\n                if not invert or r < modcount + self.border - 1:\n                    line.append(\"\\x1b[48;5;232m\")  # Background black\n                line.append(\"\\x1b[38;5;255m\")  # Foreground white\n            for c in range(-self.border, modcount + self.border):\n                pos = get_module(r, c) + (get_module(r + 1, c) << 1)\n                line.append(codes[pos])\n            if tty:\n                line.append(\"\\x1b[0m\")\n            line.append(\"\\n\")\n            out.write(\"\".join(line))\n")],
+    (MAIN, "                if not invert or not self.border or r < modcount + self.border - 1:\n                    out.write(\"\\x1b[48;5;232m\")  # Background black\n                out.write(\"\\x1b[38;5;255m\")  # Foreground white\n            for c in range(-self.border, modcount + self.border):\n                pos = get_module(r, c) + (get_module(r + 1, c) << 1)\n                out.write(codes[pos])\n            if tty:\n                out.write(\"\\x1b[0m\")\n            out.write(\"\\n\")\n",
+     "                if not invert or not self.border or r < modcount + self.border - 1:\n                    line.append(\"\\x1b[48;5;232m\")  # Background black\n                line.append(\"\\x1b[38;5;255m\")  # Foreground white\n            for c in range(-self.border, modcount + self.border):\n                pos = get_module(r, c) + (get_module(r + 1, c) << 1)\n                line.append(codes[pos])\n            if tty:\n                line.append(\"\\x1b[0m\")\n            line.append(\"\\n\")\n            out.write(\"\".join(line))\n"),
+    (MAIN, "        for r in range(-self.border, modcount + self.border, 2):\n            if tty:\n", "        for r in range(-self.border, modcount + self.border, 2):\n            line = []\n            if tty:\n")],
     "print_ascii writes one string per text line")
 ben("b15_print_tty_bright_white", "C15", [
     (MAIN, "        out.write(\"\\x1b[1;47m\" + (\" \" * (modcount * 2 + 4)) + \"\\x1b[0m\\n\")\n        for r in range(modcount):",
